@@ -4,6 +4,7 @@ C16 — provisioning URLs round-trip: parsing a generated otpauth URL returns it
 -/
 import OtpVerif.Model.Url
 import OtpVerif.Lemmas.Url
+import OtpVerif.Props.C02
 
 namespace OtpVerif.Props.C16
 open OtpVerif OtpVerif.Std OtpVerif.Std.Url OtpVerif.Model OtpVerif.Lemmas.Url
@@ -362,6 +363,31 @@ example : generateTOTPURL { issuer := [77, 121, 32, 37, 52, 49], account := [97,
     .ok { scheme := sOtpauth, host := sTotp, path := [47, 77, 121, 32, 37, 52, 49, 58, 97, 47, 63, 35],
           rawQuery := valuesEncode [(kAlgorithm, [83, 72, 65, 50, 53, 54]), (kDigits, [54]), (kIssuer, [77, 121, 32, 37, 52, 49]), (kPeriod, [51, 48]), (kSecret, [65, 66])] } := by decide
 
+theorem generateTOTP_period_default (O : HashOracle) (s : Bytes) (sec : Int) (d a sk : Nat) :
+    generateTOTP O s sec (some ⟨d, 0, sk, a⟩) = generateTOTP O s sec (some ⟨d, 30, sk, a⟩) := by
+  unfold generateTOTP
+  simp only [resolveTOTP, effPeriod]
+  rfl
+
+/-- C16 ∘ C02 (what provisioning is for): an authenticator that reads the generated URL computes, at every instant, the code
+the issuing side computes from its own parameters — same secret text, length and hash, and the period the URL spells out
+(30 when the issuer's period was left 0) -/
+theorem C16_provisioned_codes (O : HashOracle) (p : URLParam) (hi : p.issuer ≠ []) (hcol : (58 : UInt8) ∉ p.issuer)
+    (hacc : p.account ≠ []) (hs : p.secret ≠ []) (ha : p.algo < 3) (hd1 : 1 ≤ p.digits) (hd : p.digits ≤ 255)
+    (hp : p.period < 2 ^ 63) (sec : Int) :
+    ∃ u q, generateTOTPURL p = .ok u ∧ parseOTPAuthURL u = .ok q ∧
+      generateTOTP O q.secret sec (some ⟨q.digits, q.period, 0, q.algo⟩) =
+        generateTOTP O p.secret sec (some ⟨p.digits, p.period, 0, p.algo⟩) := by
+  obtain ⟨u, hg, _, _, _, hq⟩ := C16_roundtrip_totp p hi hcol hacc hs ha hd hp
+  refine ⟨u, _, hg, hq, ?_⟩
+  have hd0 : p.digits ≠ 0 := by omega
+  simp only [if_neg hd0]
+  by_cases h0 : p.period = 0
+  · simp only [if_pos h0]
+    rw [h0]
+    exact (generateTOTP_period_default O p.secret sec p.digits p.algo 0).symm
+  · simp only [if_neg h0]
+
 end OtpVerif.Props.C16
 
 #print axioms OtpVerif.Props.C16.parse_string
@@ -370,3 +396,4 @@ end OtpVerif.Props.C16
 #print axioms OtpVerif.Props.C16.C16_roundtrip_hotp
 #print axioms OtpVerif.Props.C16.C16_required
 #print axioms OtpVerif.Props.C16.C16_exact
+#print axioms OtpVerif.Props.C16.C16_provisioned_codes
